@@ -215,7 +215,7 @@ def stage_apply(beh, lines):
     if beh.startswith("G"):
         p = beh[1:].split(":")
         return [("L%d" % i).encode() for i in range(int(p[0]))], [], int(p[1])
-    if beh == "C":
+    if beh == "C" or beh.startswith("SS"):
         return list(lines), [], 0
     if beh == "S":
         return [], [], 0
@@ -283,6 +283,9 @@ def oracle(c, prop, viol):
         if int(stat["ms"]) > 3000:
             viol("the failing start took %s ms to return" % stat["ms"])
         return
+    if kv.get("prompt") and res[0] == "ok" and int(stat["ms"]) > int(kv["prompt"]):
+        viol("the last command exited at once, but the call returned only after %s ms: an earlier command went on running "
+             "although nobody reads its output any more (it must be ended by SIGPIPE / a broken pipe)" % stat["ms"])
     # ---- success path
     if kv.get("epipe") == "1" and res[0] == "err" and "BrokenPipe" in " ".join(res):
         # the expected failure of the exchange (C02's subject); what was checked above -- nobody left behind -- is the point
@@ -461,6 +464,13 @@ def gen_c14(ctx):
                         specs.append(spec(n, st, det=det, i=i, o=["I", "P", "F"][rng.below(3)], errto=rng.below(2),
                                           shape=["L", "I"][rng.below(2)], term=term, data=[0, 10, 50000][rng.below(3)],
                                           read="0", write=10))
+    # a command with a stderr pipe of its own (its read end sits in that command's Popen) that fills it while a later command
+    # cannot be started: the cleanup must not wait for an earlier command while a later Popen still holds that pipe.
+    # (Per-command stream settings inside a pipeline are outside the Lean model: these cases are checked by the oracles only.)
+    for term in (["popen", "join"] if quick else ["popen", "join", "stream_stdout", "stream_stdin"]):
+        specs.append(spec(3, ["Y", "EC200000", "nosuch"], term=term, i="I", o="I") + " perr=1")
+        specs.append(spec(4, ["Y", "C", "EC200000", "nosuch"], term=term, i="I", o="I") + " perr=2")
+        specs.append(spec(3, ["Y", "EC100", "nosuch"], term=term, i="I", o="I") + " perr=01")
     # the known finding: a command writing without bound to the captured stderr while a later one fails to start
     specs.append(spec(2, ["YE", "nosuch"], term="capture", i="I", o="I"))
     if not quick:
@@ -520,6 +530,11 @@ def gen_c12(ctx):
     # while still holding the pipe it writes to
     specs.append(spec(1, ["YC"], i="D", term="capture", data=50000, read="all") + " epipe=1")
     specs.append(spec(2, ["YC", "C"], i="D", term="capture", data=50000, read="all") + " epipe=1")
+    # a command that is stopped for a while (SIGSTOP ... SIGCONT) and then ends: waiting for it means waiting for its exit
+    for term, kw in (("join", {}), ("popen", {"o": "F"}), ("capture", {"read": "all"}), ("stream_stdout", {"read": "all"})):
+        specs.append(spec(1, ["SS300"], i="F", term=term, data=3, **kw))
+    specs.append(spec(2, ["SS300", "C"], i="F", term="join", data=3))
+    specs.append(spec(2, ["C", "SS300"], i="F", term="capture", data=3, read="all"))
     # the failed-launch child is reaped too
     specs.append(spec(1, ["nosuch"], term="join"))
     specs.append(spec(1, ["nosuch"], term="popen", det="1"))
@@ -559,7 +574,19 @@ def gen_c08(ctx):
     return specs
 
 
-GEN = {"C12": gen_c12, "C13": gen_c13, "C14": gen_c14, "C08": gen_c08}
+def gen_c13_prompt(ctx):
+    """an early exit downstream ends the commands upstream (they are connected by pipes and by nothing else, and they start with
+    the default SIGPIPE disposition): `join` returns when the last command has exited, not seconds later"""
+    specs = []
+    for n in (2, 3):
+        for last in ("X0", "X3"):
+            for shape in ("L", "I"):
+                specs.append(spec(n, ["W"] + ["C"] * (n - 2) + [last], term="join", shape=shape) + " prompt=2500")
+        specs.append(spec(n, ["W"] + ["C"] * (n - 2) + ["X0"], term="join", errto=1) + " prompt=2500")
+    return specs
+
+
+GEN = {"C12": gen_c12, "C13": lambda ctx: gen_c13(ctx) + gen_c13_prompt(ctx), "C14": gen_c14, "C08": gen_c08}
 
 
 def extra_c08(ctx):
@@ -696,7 +723,7 @@ def check(ctx):
     model = ctx.run_driver("".join(to_request(c) + "\n" for c in cases)) if cases else []
     ndiv = 0
     for c, m in zip(cases, model):
-        if c.get("hang"):
+        if c.get("hang") or "perr" in c["kv"]:
             continue
         mt, mok = model_tokens(m)
         if mt != c["abs"][0] or mok != (c["res"][0] == "ok"):
